@@ -23,6 +23,22 @@ LcsLen(a, b) ==
                    <<0>>, Cols)
     IN FoldLeft(Row, [j \in 1..(M + 1) |-> 0], a)[M + 1]
 
+(* LCS length when no item repeats within either sequence: the common items  *)
+(* form a partial permutation, and the LCS is the longest increasing         *)
+(* subsequence of their positions in b, taken in the order of a (O(k^2) for  *)
+(* k common items - independent of the lengths of a and b).                  *)
+AllDistinct(a) == Cardinality({a[i] : i \in 1..Len(a)}) = Len(a)
+LcsLenDistinct(a, b) ==
+  LET common == {a[i] : i \in 1..Len(a)} \cap {b[j] : j \in 1..Len(b)}
+      posB == [v \in common |-> CHOOSE j \in 1..Len(b) : b[j] = v]
+      inA == SelectSeq(a, LAMBDA v : v \in common)
+      ps == [k \in 1..Len(inA) |-> posB[inA[k]]]
+      \* best[k] = length of the longest increasing subsequence of ps ending at k
+      step(best, k) == Append(best, 1 + FoldLeft(LAMBDA m, i : IF ps[i] < ps[k] /\ best[i] > m THEN best[i] ELSE m,
+                                                 0, [i \in 1..(k - 1) |-> i]))
+      best == FoldLeft(step, <<>>, [k \in 1..Len(ps) |-> k])
+  IN FoldLeft(LAMBDA m, x : Mx(m, x), 0, best)
+
 (* 0-based slice s[lo..hi) of a TLA+ sequence                               *)
 Slice(s, lo, hi) == SubSeq(s, lo + 1, hi)
 
